@@ -116,7 +116,15 @@ func init() {
 		if tier == "thorough" {
 			depth = 5
 		}
-		return &Spec{Prop: "C01", ShardNum: shardNum, Keys: []string{k0, k1, kx}, Alphabet: ops, Seeds: typeSeeds(k0),
+		// two keys holding equal values that were produced in different ways (an implementation may hand
+		// out shared or cached value objects: every way of producing a value x every way of changing it)
+		seeds := append(typeSeeds(k0),
+			Seed{Name: "two counters", Prog: []Op{C("INCR", k0), C("INCR", k1)}},
+			Seed{Name: "SET 5 / INCRBY 5", Prog: []Op{C("SET", k0, "5"), C("INCRBY", k1, "5")}},
+			Seed{Name: "MSET equal values", Prog: []Op{C("MSET", k0, "ab", k1, "ab")}},
+			Seed{Name: "SET a / APPEND a", Prog: []Op{C("SET", k0, "a"), C("APPEND", k1, "a")}},
+			Seed{Name: "DECR / DECRBY", Prog: []Op{C("DECR", k0), C("DECRBY", k1, "1")}})
+		return &Spec{Prop: "C01", ShardNum: shardNum, Keys: []string{k0, k1, kx}, Alphabet: ops, Seeds: seeds,
 			Depth: depth, Budget: budget(tier, 150*time.Second, 25*time.Minute), TTLTolMs: 1000,
 			Rule: "BFS over programs of string/key commands from the empty keyspace and one seeded key of every type; state = canonical dump of implementation + model; a transition is one ExecCommand on the real executors compared with the reference model (reply, dump, invariants, observer sweep)"}
 	}
